@@ -1,4 +1,5 @@
 import BoltonsVerif.C09.Proofs
+import BoltonsVerif.Generated.C09_SepKinds
 /-
 C09 — property theorems for the chunking / windowing / splitting / stripping / grouping helpers of
 `boltons.iterutils` (model: `Model.lean`; nothing here but statements, their short derivations from
@@ -269,6 +270,68 @@ theorem split_text_sep (eqv : α → α → Bool) (isNone : α → Bool) (cs : L
     | _ :: _ :: _, _ => rfl
   simp only [Sep.isNone, pySplit, Bool.false_eq_true, ↓reduceIte, hf]
   exact pySplitSep_free _ _ _ (fun _ _ => rfl)
+
+/-! ### round 3: which Python OBJECT takes which branch (`callable`, `is_scalar`, `is_collection`) -/
+
+/-- one row of the regenerated table agrees with the facts the model's dispatch uses for that kind -/
+def sepRowOk (r : String × Bool × Bool × Bool × Bool) : Bool :=
+  match SepKind.ofName? r.1 with
+  | some k => r.2.1 == k.facts.callable && r.2.2.1 == k.facts.iterable && r.2.2.2.1 == isScalar k.facts
+      && r.2.2.2.2 == isCollection k.facts
+  | none => false
+
+/-- SOURCE FACTS, re-established from the current `boltons/iterutils.py` on every run (the table is
+    regenerated by evaluating `is_iterable` / `is_scalar` / `is_collection` of the source under test on a
+    sample object of every kind): the source answers exactly what the model's dispatch assumes, for every kind
+    of the model; and `None` and plain item values are scalars that are not iterable. -/
+theorem sep_kind_table_agrees :
+    Generated.sepKindTable.all sepRowOk = true ∧
+    SepKind.all.all (fun k => Generated.sepKindTable.any (fun r => SepKind.ofName? r.1 == some k)) = true ∧
+    Generated.plainTable.all (fun r => r.2 == (false, false, true, false)) = true := by decide
+
+/-- `SepKind.all` really lists every kind -/
+theorem sepKind_all_complete (k : SepKind) : k ∈ SepKind.all := by cases k <;> decide
+
+/-- `is_collection` is the negation of `is_scalar` on everything iterable or not -/
+theorem isCollection_eq_not_isScalar (f : ObjFacts) : isCollection f = !isScalar f := by
+  cases f with | mk c i s => cases i <;> cases s <;> rfl
+
+/-- EVERY iterable that is not a `str` / `bytes` - list, tuple, set, frozenset, dict, deque, range, bytearray,
+    memoryview, generator, one-shot iterator - is a collection of separators (`frozenset(sep)`) -/
+theorem sep_object_dispatch (k : SepKind) (vs : List α) (hk : k ≠ .str ∧ k ≠ .bytes) :
+    (SepObj.holding k vs).dispatch = .coll vs := by
+  cases k <;> first | rfl | exact absurd rfl hk.1 | exact absurd rfl hk.2
+
+/-- the other objects: `None` groups, an item value and a `str` are compared with `==`, a callable is used as
+    it is, a `bytes` object equals no item -/
+theorem sep_object_dispatch_scalars (v : α) (cs : List α) (f : α → Bool) :
+    (SepObj.none : SepObj α).dispatch = .none ∧ (SepObj.item v).dispatch = .value v ∧
+    (SepObj.func f).dispatch = .func f ∧ (SepObj.holding .str cs).dispatch = .text cs ∧
+    (SepObj.holding .bytes cs).dispatch = .opaque :=
+  ⟨rfl, rfl, rfl, rfl, rfl⟩
+
+/-- `split` called with a collection object cuts exactly at the members (item-wise `str.split` with the
+    membership test), whatever the container, for every `maxsplit` -/
+theorem splitO_collection (eqv : α → α → Bool) (isNone : α → Bool) (k : SepKind) (vs : List α)
+    (hk : k ≠ .str ∧ k ≠ .bytes) (maxsplit : Option Param) (src : List α) :
+    splitO eqv isNone (.holding k vs) maxsplit src =
+      pySplitSep (fun x => vs.any (fun v => eqv x v)) ((maxsplit.map Param.toInt).map Int.toNat) src := by
+  unfold splitO
+  rw [sep_object_dispatch k vs hk, splitS_eq_pySplit]
+  rfl
+
+/-- a `bytes` object as separator of an item sequence splits nothing -/
+theorem splitO_bytes (eqv : α → α → Bool) (isNone : α → Bool) (bs : List α) (maxsplit : Option Param)
+    (src : List α) : splitO eqv isNone (.holding .bytes bs) maxsplit src = [src] := by
+  unfold splitO
+  rw [splitS_eq_pySplit]
+  exact pySplitSep_free _ _ _ (fun _ _ => rfl)
+
+example : (SepKind.bytearray ≠ .str ∧ SepKind.bytearray ≠ .bytes) ∧
+    splitO (fun x y => x == y) (fun x => x == 0) (.holding .bytearray [61, 59]) none [1, 61, 2, 59, 3] =
+      [[1], [2], [3]] := by decide
+example : splitO (fun x y => x == y) (fun x => x == 0) (.holding .bytes [61]) none [1, 61, 2] = [[1, 61, 2]] := by
+  decide
 
 example : splitS (fun x y => x == y) (fun x => x == 0) (.text [1, 2]) none [1, 2, 1, 2] = [[1, 2, 1, 2]] := by decide
 example : splitS (fun x y => x == y) (fun x => x == 0) (.coll [1, 2]) (some (.halves 3)) [1, 3, 2, 4, 1] =
